@@ -106,6 +106,8 @@ class Engine(object):
         self.vc_timeout_ms = 20000
         self.cvc5_timeout_s = 20
         self.max_unroll = 70
+        self.cvc5_for_branches = True
+        self.cvc5_branch_timeout_s = 10
         self.stats = {"paths": 0, "branch_checks": 0, "solver_time": 0.0}
         self.dropped = []
         self.externals_used = set()
@@ -203,6 +205,8 @@ class Ctx(InterpMixin, ModelsMixin):
         self.cur_contract = None
         self.witness_ns = {}
         self.witness_state = {}
+        self.entry_ns = {}
+        self.applied = {}         # callee function -> (contract, namespace) of its last application
 
     # ------------------------------------------------------------ fresh symbols
     def fresh_name(self, base):
@@ -235,6 +239,18 @@ class Ctx(InterpMixin, ModelsMixin):
         self.eng.stats["solver_time"] += time.time() - t
         return r
 
+    def _check2(self, extra):
+        """feasibility with cvc5 as a second opinion when z3 answers unknown"""
+        r = self._check(extra)
+        if r == z3.unknown and self.eng.cvc5_for_branches:
+            from .solve import run_cvc5, smt2_for
+            res, _ = run_cvc5(smt2_for(self.pc, extra), self.eng.cvc5_branch_timeout_s)
+            if res == "unsat":
+                return z3.unsat
+            if res == "sat":
+                return z3.sat
+        return r
+
     def assume_raw(self, cond):
         self.pc.append(cond)
         self.solver.add(cond)
@@ -253,7 +269,7 @@ class Ctx(InterpMixin, ModelsMixin):
         if z3.is_false(cond):
             raise PathEnd()
         self.assume_raw(cond)
-        if check and self._check() == z3.unsat:
+        if check and self._check2(z3.BoolVal(True)) == z3.unsat:
             raise PathEnd()
 
     def branch(self, cond):
@@ -271,11 +287,11 @@ class Ctx(InterpMixin, ModelsMixin):
         if i < len(self.script):
             choice = self.script[i]
         else:
-            rt = self._check(cond)
+            rt = self._check2(cond)
             if rt == z3.unsat:
                 choice = False
             else:
-                rf = self._check(z3.Not(cond))
+                rf = self._check2(z3.Not(cond))
                 if rf == z3.unsat:
                     choice = True
                 else:
